@@ -193,7 +193,9 @@ async fn config_case(ctx: &mut Ctx, sock: &str, o: &Opts, x: u32, idx: u64) {
             let pre_c = vec![idx as u8, 3, 7]; let hash_c = { use secp256k1::hashes::{sha256, Hash}; sha256::Hash::hash(&pre_c).to_byte_array().to_vec() };
             let inv_c = make_invoice(&pre_c, Some(amount), 1, 2);
             p.send(&htlc_request(3, &inv_c, &hash_c, amount / 2, Some(total), 1000 + 70000, 70000)).await;
-            let selfobs = match p.recv_id("h3", Duration::from_millis(if o.mpp <= 1 { 300 } else { 600 })).await {
+            // when a failure is expected wait long enough for a loaded machine; when the HTLC is expected to be held, a short
+            // wait suffices (a late answer can only make the check miss a violation, never raise one)
+            let selfobs = match p.recv_id("h3", Duration::from_millis(if o.noself { 5000 } else if o.mpp <= 1 { 300 } else { 600 })).await {
                 Some(r) if r["result"]["failure_message"] == "2002" => "fail",
                 Some(r) if r["result"]["failure_message"] == "2019" => "held",   // mpp timeout already fired: it was held
                 Some(_) => "other", None => "held" };
@@ -209,7 +211,7 @@ async fn config_case(ctx: &mut Ctx, sock: &str, o: &Opts, x: u32, idx: u64) {
                     match p.recv_id("h4", Duration::from_secs(6)).await {
                         Some(r) => {
                             let el = t0.elapsed().as_millis() as i64;
-                            let ok = r["result"]["failure_message"] == "2019" && el >= o.mpp * 1000 - 20 && el <= o.mpp * 1000 + 1500;
+                            let ok = r["result"]["failure_message"] == "2019" && el >= o.mpp * 1000 - 20 && el <= o.mpp * 1000 + 4000;
                             mppobs = if ok { "ok".into() } else { format!("bad:{}ms:{}", el, r["result"]) };
                             if !ok { ctx.violation("C19,C11", "config-mpp-timeout", &format!("incomplete set failed after {} ms with {} (timeout {} s) REPLAY[{}]", el, r["result"], o.mpp, input)); }
                             break;
